@@ -13,7 +13,7 @@ assert "valid=yes" in ver, ver
 readme = open(os.path.join(src, "README.md")).read()
 meta = {
     "property": pid, "seed": "%s-%s" % (pid, k),
-    "origin": "independent sub-agent given only the property text and a scratch worktree of /repo (HEAD 571fdf7)",
+    "origin": "independent sub-agent given only the property text and a scratch worktree of /repo (HEAD %s)" % os.environ.get("SEED_HEAD", "571fdf7") + "",
     "needs_to_manifest": sys.argv[3] if len(sys.argv) > 3 else "see README.md",
     "files_touched": sorted(set(re.findall(r"^\+\+\+ b/(.*)$", open(os.path.join(src, "patch.diff")).read(), re.M))),
     "confirmed_by": "tools/verify_seed.sh in the scratch worktree: full suite passes with the patch, demo fails with it and passes without",
